@@ -7,6 +7,7 @@
 #include <pika/semaphore.hpp>
 #include <pika/stop_token.hpp>
 #include <pika/threading/jthread.hpp>
+#include <optional>
 
 using namespace vf;
 using namespace vf::rt;
@@ -16,6 +17,8 @@ static char const* const scen_names[] = {"join", "detach", "self_join", "interru
 enum BodyOp { B_SPIN, B_YIELD, B_IPOINT, B_WAIT_EVENT, B_DISABLE_BEGIN, B_DISABLE_END, B_SPAWN_JOIN, B_SLEEP };
 static char const* const bop_names[] = {"spin", "yield", "interruption_point", "wait_event", "disable{", "}", "spawn+join_child", "sleep"};
 
+static char const* const jform_names[] = {"constructed in place", "default-constructed, then move-assigned from jthread(f)", "move-constructed from another handle",
+    "default-constructed, swap()ped with a running one; request_stop() through the handle, then destroyed"};
 struct Scenario
 {
     int kind = 0;
@@ -23,6 +26,7 @@ struct Scenario
     int ctrl_delay = 0;       // controller delay before join/interrupt/destroy (code)
     int ctrl_hint = -1;
     bool second_join = false;
+    int jform = 0;
     bool exit_callback = false;
     int signal_delay = 0;     // delay before the controller signals the body's events
 };
@@ -74,7 +78,10 @@ static Case decode(tape_t const& tape)
         s.ctrl_delay = static_cast<int>(t.below(6));
         s.ctrl_hint = t.chance(1, 2) ? static_cast<int>(t.below(static_cast<std::uint32_t>(c.cfg.workers))) : -1;
         s.second_join = t.chance(1, 3);
-        (void) t.chance(1, 2);
+        bool form_bit = t.chance(1, 2);
+        // how a jthread handle gets its thread: built in place, move-assigned into a default-constructed handle (declare first, start
+        // later), move-constructed from another handle, or swapped in (then stopped through the handle before it is destroyed)
+        s.jform = s.kind == SC_JTHREAD ? (s.second_join ? 1 : 0) + (form_bit ? 2 : 0) : 0;
         s.exit_callback = false;    // exit callbacks are an internal mechanism used only by join itself: not probed
         s.signal_delay = static_cast<int>(t.below(5));
         c.sc.push_back(std::move(s));
@@ -93,7 +100,9 @@ static std::string describe(tape_t const& tape)
         os << (i ? ", " : "") << "{\"kind\": \"" << scen_names[s.kind] << "\", \"body\": \"";
         for (int op : s.body) os << bop_names[op] << " ";
         os << "\", \"ctrl_delay\": " << s.ctrl_delay << ", \"ctrl_hint\": " << s.ctrl_hint << ", \"second_join\": " << (s.second_join ? "true" : "false")
-           << ", \"exit_callback\": " << (s.exit_callback ? "true" : "false") << ", \"signal_delay\": " << s.signal_delay << "}";
+           << ", \"exit_callback\": " << (s.exit_callback ? "true" : "false") << ", \"signal_delay\": " << s.signal_delay;
+        if (s.kind == SC_JTHREAD) os << ", \"handle\": \"" << jform_names[s.jform] << "\"";
+        os << "}";
     }
     os << "]}";
     return os.str();
@@ -353,9 +362,30 @@ static void controller(ScenRt& r)
     case SC_JTHREAD:
     {
         {
-            pika::jthread jt([&r](pika::stop_token st) { run_body(r, st); });
+            auto f = [&r](pika::stop_token st) { run_body(r, st); };
+            using F = decltype(f);
+            std::optional<pika::jthread> other;
+            std::optional<pika::jthread> jt;
+            switch (s.jform)
+            {
+            // (pika::jthread does not compile with an lvalue callable: copies are handed over as rvalues)
+            case 0: jt.emplace(F(f)); break;
+            case 1: jt.emplace(); *jt = pika::jthread(F(f)); break;
+            case 2: other.emplace(F(f)); jt.emplace(std::move(*other)); break;
+            default: other.emplace(F(f)); jt.emplace(); jt->swap(*other); break;
+            }
+            if (!jt->joinable()) fail_now("jthread_handle_lost_thread", std::string("a jthread handle (") + jform_names[s.jform] + ") that owns a running thread reports joinable()==false");
+            if (other && other->joinable()) fail_now("jthread_handle_lost_thread", std::string("the moved-from / swapped-out jthread handle still reports joinable() (") + jform_names[s.jform] + ")");
             delay(s.ctrl_delay);
+            if (s.jform == 3)
+            {
+                if (!jt->request_stop()) fail_now("jthread_request_stop", "request_stop() through the handle that owns the running thread returned false (nobody else requested a stop)");
+                if (!jt->get_stop_token().stop_requested()) fail_now("jthread_request_stop", "get_stop_token() of the handle does not see the stop request made through the same handle");
+            }
             // destructor: request_stop + join
+            BoundedCall bc(std::string("~jthread() [") + jform_names[s.jform] + "]: the destructor requests stop and joins; the thread function returns as soon as its stop_token reports the request");
+            jt.reset();
+            other.reset();
         }
         if (r.body_finished.load() != 1 || r.stop_seen.load() != 1)
             fail_now("jthread_dtor_early", "jthread destructor returned but body_finished=" + std::to_string(r.body_finished.load()) + " stop_seen=" + std::to_string(r.stop_seen.load()));
